@@ -234,13 +234,10 @@ func runC04(r *simrt.Run, tier Tier) Outcome {
 	if ref.Diverged {
 		return Outcome{Discard: "reference-model-too-large"}
 	}
-	want, wantH := refKeys(ref, setCols)
+	want, _ := refKeys(ref, setCols)
 	got := resortSets(res.Facts, setCols)
 	missing, extra := DiffSets(want, got)
 	if len(missing)+len(extra) > 0 {
-		if _, _, ok := HashCollision(wantH, res.Hashes); ok {
-			return Outcome{Discard: "known:hash-collision"}
-		}
 		return Violation("C04/literal-ignored-or-misread", "the accepted program does not evaluate to the meaning of its clauses as written\nmissing: %v\nextra: %v\n%s", missing, extra, ctx)
 	}
 	hasWild := strings.Contains(src, "!") && strings.Contains(src, "_")
